@@ -14,3 +14,5 @@ open TFVerif.C16
 #print axioms tokens_rowwise_sentences
 #print axioms tokens_rowwise_mapping
 #print axioms formats_agree
+#print axioms sentence_key_order_irrelevant
+#print axioms sentence_key_order_irrelevant_batched
